@@ -265,6 +265,10 @@ BUILDERS = {
     'seipd': lambda a, b: (18, b'\x01' + bytes((b + i) & 0xFF for i in range(30 + a % 100))),
     'seipd-v2-unknown': lambda a, b: (18, b'\x02' + bytes(a % 60)),
     'mdc': lambda a, b: (19, bytes((a + i) & 0xFF for i in range(20))),
+    # empty bodies (an old-format indeterminate length then announces nothing at all)
+    'userid-empty': lambda a, b: (13, b''),
+    'unassigned-15-empty': lambda a, b: (15, b''),
+    'trust-empty': lambda a, b: (12, b''),
     'unassigned-15': lambda a, b: (15, bytes(a % 300)),
     'unassigned-16': lambda a, b: (16, bytes(range(b % 200))),
     'unassigned-20': lambda a, b: (20, b'\x01' + bytes(a % 100)),
